@@ -440,6 +440,12 @@ func udpCases(thorough bool) [][]UDPCase {
 	}
 	add(UDPCase{Side: "server-udp", Phase: "established", Timeouts: "short", Silence: true, TwoSess: true},
 		[]Src{{"other-session-peer", "right16", "other-session", "ignore"}, {"other-session-peer", "right4", "other-session", "ignore"}, {"right-source", "right16", "right", "accept"}}, full)
+	// the negotiated peer is an IPv6 address: other IPv6 addresses (and the IPv4 loopback) with the right port
+	v6 := []Src{{"other-ipv6-right-port", "v6other", "right", "ignore"}, {"other-ipv6-right-port", "v6other-low", "right", "ignore"},
+		{"wrong-ip-right-port", "lo2-4", "right", "ignore"}, {"wrong-ip-right-port", "ten", "right", "ignore"},
+		{"wrong-port", "right16", "+2", "ignore"}, {"right-source", "right16", "right", "accept"}}
+	add(UDPCase{Side: "server-udp", Phase: "established", Timeouts: "short", Silence: true, V6: true}, v6, full)
+	add(UDPCase{Side: "server-udp-play", Phase: "established", Timeouts: "short", Silence: true, V6: true}, v6, play)
 	add(UDPCase{Side: "server-udp-libpub", Phase: "established", Timeouts: "short"}, all, full)
 	for _, ph := range []string{"fresh", "established"} {
 		for _, anyPort := range []bool{false, true} {
@@ -489,7 +495,7 @@ func main() {
 		evid.ServeWorker(worker)
 	}
 	run := evid.New("C19", "model_checking")
-	run.Rule("part A: case = (receiving side in {server recording from a raw publisher, server recording from the library Client, server playing to a raw player, library Client playing, library Client recording} x any-port option x automatic-protocol option x phase {nothing received yet, established} x configured timeouts) x source class (16 foreign: right IP with port +2/-2/1/65535/0/sibling RTP<->RTCP port/RTP port + 1 (the raw publisher and player negotiate the non-consecutive pair 35000-35005), 127.0.0.2 in 4- and 16-byte form, 10.0.0.1, ::1, ::127.0.0.1, 7f00:1::, with right and wrong ports, the peer of another session; 3 forms of the right source) x content {garbage, empty, valid RTP with negotiated payload type/SSRC/next sequence number, valid RTCP SR, valid RTCP RR} x destination socket {RTP, RTCP}: full product, one fresh world per case. part B: every sequence over the owner alphabet {ANNOUNCE, SETUP track 0, SETUP track 1, SETUP refused by the application (first request only), PLAY, PAUSE, RECORD} up to the stated depth whose requests all succeed, over TCP-interleaved and UDP x intruder source {other IPs, same IP other connection} x intruder request {OPTIONS, DESCRIBE, SETUP(another track), PLAY, PAUSE, RECORD, TEARDOWN, GET_PARAMETER, SET_PARAMETER, ANNOUNCE} carrying the owner's session id (plus, for every situation in which the session streams over the owner's interleaved connection: the same-address intruder attached its own connection to the session at EVERY earlier point of the owner sequence with an OPTIONS request - allowed by design while the session is not streaming - and then sends each intruder request on that connection). states = distinct (side, options, phase, source class) and (session state, transport, number of medias, intruder kind) situations; transitions = requests and datagrams executed; every case runs on the implementation. non-trivial = every case (each carries a foreign or alternative source)")
+	run.Rule("part A: case = (receiving side in {server recording from a raw publisher, server recording from the library Client, server playing to a raw player, library Client playing, library Client recording} x any-port option x automatic-protocol option x phase {nothing received yet, established} x configured timeouts; the raw sides also with the negotiated peer at [::1] and foreign sources at other IPv6 addresses) x source class (16 foreign: right IP with port +2/-2/1/65535/0/sibling RTP<->RTCP port/RTP port + 1 (the raw publisher and player negotiate the non-consecutive pair 35000-35005), 127.0.0.2 in 4- and 16-byte form, 10.0.0.1, ::1, ::127.0.0.1, 7f00:1::, with right and wrong ports, the peer of another session; 3 forms of the right source) x content {garbage, empty, valid RTP with negotiated payload type/SSRC/next sequence number, valid RTCP SR, valid RTCP RR} x destination socket {RTP, RTCP}: full product, one fresh world per case. part B: every sequence over the owner alphabet {ANNOUNCE, SETUP track 0, SETUP track 1, SETUP refused by the application (first request only), PLAY, PAUSE, RECORD} up to the stated depth whose requests all succeed, over TCP-interleaved and UDP x intruder source {other IPs, same IP other connection} x intruder request {OPTIONS, DESCRIBE, SETUP(another track), PLAY, PAUSE, RECORD, TEARDOWN, GET_PARAMETER, SET_PARAMETER, ANNOUNCE} carrying the owner's session id (plus, for every situation in which the session streams over the owner's interleaved connection: the same-address intruder attached its own connection to the session at EVERY earlier point of the owner sequence with an OPTIONS request - allowed by design while the session is not streaming - and then sends each intruder request on that connection). states = distinct (side, options, phase, source class) and (session state, transport, number of medias, intruder kind) situations; transitions = requests and datagrams executed; every case runs on the implementation. non-trivial = every case (each carries a foreign or alternative source)")
 	run.Assume("the reference execution (same script without the foreign datagram, same virtual clock) defines 'as if nothing had been injected'; it is run twice per configuration and must agree with itself")
 	run.Assume("absence of a callback is concluded behind a barrier: legitimate datagrams sent afterwards to the same sockets (memnet sockets are FIFO) have been delivered; absence of a timeout is concluded only after 2x(timeout + check period + 1 s) of virtual time and a wall-clock hang limit (5 s, 10 s when confirming)")
 	run.Assume("timeout precision: a timeout that comes later than timeout + period + 1 s but within twice that is accepted (the library re-arms its check timer relative to the instant it processes a tick, so a loaded machine shifts it); a close earlier than the timeout is reported")
